@@ -466,6 +466,23 @@ func c08Judge(bdf module.BlockDataFactory, in []byte) (outcome string, bd module
 	if got := c08Sha3OrNil(dg.Bytes()); !bytes.Equal(got, want) {
 		return "accepted", bd, fmt.Sprintf("decoded BTP digest hash %x != digest hash in header result %x, input %x", got, want, in)
 	}
+	// Whatever bytes it came from, the accepted block is now a block of this node: serialized by the
+	// node it must decode back to a block with the same id (and serialize to the same bytes again).
+	// This is the round-trip clause applied to blocks that entered through a non-canonical encoding.
+	enc2 := hbMarshal(bd)
+	bd2, err2, runaway2 := c08Decode(bdf, enc2)
+	if runaway2 != "" || err2 == c08ErrPoisoned {
+		return "accepted", bd, ""
+	}
+	if err2 != nil || bd2 == nil {
+		return "accepted", bd, fmt.Sprintf("block accepted from input %x does not decode from its own serialization %x: %v", in, enc2, err2)
+	}
+	if !bytes.Equal(bd2.ID(), bd.ID()) {
+		return "accepted", bd, fmt.Sprintf("block accepted from input %x has id %x, but serialized by the node (%x) it decodes to id %x", in, bd.ID(), enc2, bd2.ID())
+	}
+	if enc3 := hbMarshal(bd2); !bytes.Equal(enc3, enc2) {
+		return "accepted", bd, fmt.Sprintf("block accepted from input %x: serialization %x changes to %x after one more round trip", in, enc2, enc3)
+	}
 	return "accepted", bd, ""
 }
 
